@@ -16,8 +16,8 @@ import (
 	"encoding/hex"
 	"fmt"
 	"net"
-	"os"
 	"reflect"
+	"runtime/debug"
 	"sort"
 	"strings"
 	"testing"
@@ -271,7 +271,8 @@ func genBase(rng *rand.Rand) semReq {
 // randomizeIgnored re-draws every field the statement tells the cache to ignore.
 func randomizeIgnored(rng *rand.Rand, r *semReq) []string {
 	var changed []string
-	if r.DataKind != "raw" {
+	if r.DataKind != "raw" && (jsonRPCInterface(r.ApiIf) || len(r.IDs) != len(r.Calls)) {
+		// under rest / grpc the body is opaque: an "id" member is ordinary data there and is kept
 		r.IDs = make([]string, len(r.Calls))
 		for i := range r.IDs {
 			r.IDs[i] = vrand.Pick(rng, idSet)
@@ -434,30 +435,34 @@ func genPayload(seed int64, p payloadSpec) []byte {
 	return out
 }
 
-func genPayloadSpec(rng *rand.Rand, nonce int, forceBig bool) payloadSpec {
+// genPayloadSpec draws a reply. bigIdx >= 0 forces the bigIdx-th entry of a fixed plan that cycles through
+// the size classes around / above the compression threshold and through all content kinds.
+func genPayloadSpec(rng *rand.Rand, nonce int, bigIdx int) payloadSpec {
 	T := common.CompressionThreshold
 	p := payloadSpec{Nonce: nonce}
+	kinds := []string{"json", "random", "zeros", "gzip-magic", "json"}
+	p.Kind = kinds[rng.Intn(len(kinds))]
 	w := rng.Intn(100)
-	if forceBig {
-		w = 75 + rng.Intn(25)
+	if bigIdx >= 0 {
+		w = []int{96, 97, 98, 99}[bigIdx%4]
+		p.Kind = kinds[(bigIdx/4+bigIdx)%4]
 	}
 	switch {
 	case w < 8:
 		p.Class, p.Size = "0", 0
 	case w < 14:
 		p.Class, p.Size = "1", 1
-	case w < 75:
+	case w < 96:
 		p.Class, p.Size = "small", 2+rng.Intn(3000)
-	case w < 81:
+	case w < 97:
 		p.Class, p.Size = "T-1", T-1
-	case w < 87:
+	case w < 98:
 		p.Class, p.Size = "T", T
-	case w < 94:
+	case w < 99:
 		p.Class, p.Size = "T+1", T+1
 	default:
 		p.Class, p.Size = "multi-MB", 2*T+rng.Intn(3*T)
 	}
-	p.Kind = []string{"json", "json", "random", "zeros", "gzip-magic"}[rng.Intn(5)]
 	return p
 }
 
@@ -709,6 +714,25 @@ func diffFields(a, b semReq) []string {
 	return d
 }
 
+func diffFieldsIgnoringBlock(d []string) []string {
+	var out []string
+	for _, x := range d {
+		if x != "block" {
+			out = append(out, x)
+		}
+	}
+	return out
+}
+
+func containsBlock(bs []int64, b int64) bool {
+	for _, x := range bs {
+		if x == b {
+			return true
+		}
+	}
+	return false
+}
+
 type getResult struct {
 	hit      bool
 	resolved int64
@@ -791,32 +815,6 @@ func (h *harness) get(r semReq, o getOpts, note string) getResult {
 	for _, b := range blocks {
 		cands = append(cands, h.shadow[shadowKey{r.semKey(), b}]...)
 	}
-	describe := func() (string, map[string]any) {
-		// who owns the returned bytes?
-		owners := h.bySum[sum]
-		if len(owners) == 0 {
-			return "bytes-never-stored", map[string]any{"returned_len": len(data), "returned_sha256": hex.EncodeToString(sum[:]), "returned_head_hex": hex.EncodeToString(data[:min(len(data), 48)])}
-		}
-		best := owners[len(owners)-1]
-		d := diffFields(best.Req, r)
-		if o.ReqBlock < 0 && len(d) == 1 && d[0] == "block" {
-			d = []string{"block(resolved)"}
-		}
-		if len(d) == 0 {
-			d = []string{"nothing?"}
-		}
-		cls := "differs-in:" + strings.Join(d, "+")
-		if jsonRPCInterface(r.ApiIf) && r.DataKind == "raw" && best.Req.DataKind == "raw" && len(d) == 1 && d[0] == "data" {
-			cls = "jsonrpc-non-object-data:differs-in:data"
-		}
-		return cls, map[string]any{"owner_of_returned_bytes": best}
-	}
-	if len(cands) == 0 {
-		sig, extra := describe()
-		h.run.Violation("hit-for-request-never-stored", sig,
-			fmt.Sprintf("GetRelay (%s) returned a reply (%d bytes) for a request whose (chain, normalised request, block %v) was never stored: %s [%s]", o.Via, len(data), blocks, sig, note), wit(extra))
-		return getResult{hit: true, resolved: resolved}
-	}
 	var match []*stored
 	for _, c := range cands {
 		if c.Sum == sum && c.Payload.Size == len(data) {
@@ -824,17 +822,45 @@ func (h *harness) get(r semReq, o getOpts, note string) getResult {
 		}
 	}
 	if len(match) == 0 {
-		last := cands[len(cands)-1]
-		sig := "class=" + last.Payload.Class + ":kind=" + last.Payload.Kind
-		if _, extra := describe(); extra["owner_of_returned_bytes"] != nil {
-			sig = "bytes-of-another-entry:" + sig
-		} else if len(data) >= 2 && data[0] == 0x1f && data[1] == 0x8b && last.Payload.Kind != "gzip-magic" {
-			sig = "gzip-stream-returned:" + sig
+		// Wrong hit. Either the bytes are the reply of ANOTHER request (key confusion) or they are nobody's (corruption).
+		owners := h.bySum[sum]
+		if len(owners) > 0 {
+			best, bestD := owners[len(owners)-1], []string(nil)
+			for i := len(owners) - 1; i >= 0 && i >= len(owners)-300; i-- {
+				d := diffFields(owners[i].Req, r)
+				if o.ReqBlock < 0 { // the block of the get was resolved by the cache
+					d = diffFieldsIgnoringBlock(d)
+					if !containsBlock(blocks, owners[i].Req.Block) {
+						d = append(d, "block(resolved)")
+					}
+				}
+				if bestD == nil || len(d) < len(bestD) {
+					best, bestD = owners[i], d
+				}
+			}
+			if len(bestD) == 0 {
+				bestD = []string{"nothing(stale-or-shadowed)"}
+			}
+			sig := "differs-in:" + strings.Join(bestD, "+")
+			if jsonRPCInterface(r.ApiIf) && r.DataKind == "raw" && best.Req.DataKind == "raw" && len(bestD) == 1 && bestD[0] == "data" {
+				sig = "jsonrpc-non-object-data:differs-in:data"
+			}
+			h.run.Violation("hit-serves-reply-of-another-request", sig,
+				fmt.Sprintf("GetRelay (%s) answered with the reply stored for a request that %s (%d bytes; %d replies are stored under the asked key, none equal) [%s]", o.Via, sig, len(data), len(cands), note),
+				wit(map[string]any{"owner_of_returned_bytes": best, "asked_blocks": blocks, "stored_under_asked_key": cands}))
+			return getResult{hit: true, resolved: resolved}
+		}
+		sig := "no-entry-under-key"
+		if len(cands) > 0 {
+			last := cands[len(cands)-1]
+			sig = "class=" + last.Payload.Class + ":kind=" + last.Payload.Kind
+			if len(data) >= 2 && data[0] == 0x1f && data[1] == 0x8b && last.Payload.Kind != "gzip-magic" {
+				sig = "gzip-stream-returned:" + sig
+			}
 		}
 		h.run.Violation("hit-bytes-differ-from-stored", sig,
-			fmt.Sprintf("GetRelay (%s) hit for the right key but returned %d bytes (sha256 %x…) that are none of the %d replies stored under it (last stored: %d bytes, class %s/%s) [%s]",
-				o.Via, len(data), sum[:6], len(cands), last.Payload.Size, last.Payload.Class, last.Payload.Kind, note),
-			wit(map[string]any{"stored_under_key": cands, "returned_len": len(data), "returned_head_hex": hex.EncodeToString(data[:min(len(data), 48)])}))
+			fmt.Sprintf("GetRelay (%s) returned %d bytes (sha256 %x…) that were never stored by anybody; %d replies are stored under the asked key [%s]", o.Via, len(data), sum[:6], len(cands), note),
+			wit(map[string]any{"stored_under_asked_key": cands, "returned_len": len(data), "returned_head_hex": hex.EncodeToString(data[:min(len(data), 48)])}))
 		return getResult{hit: true, resolved: resolved}
 	}
 	// block-hash rule: a non-finalized entry stored with a block hash only for a request carrying that hash
@@ -903,8 +929,12 @@ func (h *harness) scenario(n int, rng *rand.Rand) {
 	if rng.Intn(100) < 18 {
 		via = "grpc"
 	}
-	forceBig := n%9 == 0
-	ps := genPayloadSpec(rng, h.sets, forceBig)
+	bigIdx := -1
+	if n%10 == 0 { // every 10th scenario follows the fixed plan of big replies; every 3rd of those goes through gRPC
+		bigIdx = n / 10
+		via = []string{"grpc", "direct", "direct"}[bigIdx%3]
+	}
+	ps := genPayloadSpec(rng, h.sets, bigIdx)
 	// finality / hash class
 	var finalized bool
 	var bhash []byte
@@ -975,9 +1005,6 @@ func (h *harness) scenario(n int, rng *rand.Rand) {
 			}
 		} else if !res.hit {
 			h.count("equivalent-request-misses")
-			if os.Getenv("VERIF_C36_DEBUG") != "" {
-				fmt.Printf("EQ-MISS n=%d via=%s fcls=%s class=%s/%s latest=%d block=%d kind=%s api=%s baseids=%v eqids=%v order=%d\n", n, via, fcls, ps.Class, ps.Kind, st.Latest, base.Block, base.DataKind, base.ApiIf, base.IDs, eq.IDs, base.KeyOrder)
-			}
 		}
 	}
 	// 2. one-field-different requests — must never be answered with this entry
@@ -1057,7 +1084,7 @@ func (h *harness) scenario(n int, rng *rand.Rand) {
 		f := mutFields[rng.Intn(len(mutFields))]
 		if m, ok := mutate(rng, base, f); ok && m.Block >= 0 {
 			randomizeIgnored(rng, &m)
-			ps2 := genPayloadSpec(rng, h.sets, false)
+			ps2 := genPayloadSpec(rng, h.sets, -1)
 			fin2 := rng.Intn(2) == 0
 			st2 := h.set(m, ps2, fin2, nil, via, false, rng)
 			o := opt()
@@ -1076,7 +1103,7 @@ func (h *harness) scenario(n int, rng *rand.Rand) {
 	if rng.Intn(6) == 0 {
 		eq := base.clone()
 		randomizeIgnored(rng, &eq)
-		st3 := h.set(eq, genPayloadSpec(rng, h.sets, false), finalized, bhash, via, false, rng)
+		st3 := h.set(eq, genPayloadSpec(rng, h.sets, -1), finalized, bhash, via, false, rng)
 		o := opt()
 		o.Seen, o.Shared = 0, ""
 		if res := h.get(base, o, "same key stored twice"); res.st != nil && res.st == st3 {
@@ -1085,6 +1112,28 @@ func (h *harness) scenario(n int, rng *rand.Rand) {
 	}
 	if n < 3 {
 		run.Sample(map[string]any{"scenario": n, "request": base, "data": string(base.data(true)), "payload": ps, "class": fcls, "via": via, "entry_present_when_probed": present})
+	}
+}
+
+// directedNonObject always exercises the class "payload handed to a JSON-RPC interface that is not a JSON
+// object" (scalars, arrays of scalars, plain text): two such requests differ in their data and in nothing else.
+func (h *harness) directedNonObject(rng *rand.Rand) {
+	pairs := [][2]string{{`12345`, `67890`}, {`"hello"`, `"world"`}, {`[1,2]`, `[3,4]`}, {`hello world`, `foo bar baz`}, {`true`, `null`}}
+	for i, pr := range pairs {
+		for j, api := range []string{spectypes.APIInterfaceJsonRPC, spectypes.APIInterfaceTendermintRPC} {
+			base := semReq{Chain: "ETH1", Conn: "POST", ApiIf: api, DataKind: "raw", Raw: []byte(pr[0]), Block: int64(7000 + 10*i + j)}
+			randomizeIgnored(rng, &base)
+			st := h.set(base, payloadSpec{Class: "small", Kind: "json", Size: 200, Nonce: h.sets}, true, nil, "direct", false, rng)
+			o := getOpts{Finalized: true, ReqBlock: base.Block, Via: "direct"}
+			res := h.get(base, o, "directed: non-object payload on a JSON-RPC interface, same request")
+			other := base.clone()
+			other.Raw = []byte(pr[1])
+			h.get(other, o, "directed: non-object payload on a JSON-RPC interface, differs in exactly: data")
+			if st != nil && res.st == st {
+				h.count("one-field-pair:data(non-object-jsonrpc-payload)")
+				h.run.Nontrivial("pair|data|non-object|" + api + "|" + pr[0])
+			}
+		}
 	}
 }
 
@@ -1101,6 +1150,7 @@ func freeAddr(t *testing.T) string {
 func TestC36(t *testing.T) {
 	run := ev.Start("C36")
 	utils.SetGlobalLoggingLevel("fatal")
+	debug.SetGCPercent(400) // multi-MB replies are copied several times per step; memory is not what is being measured
 	target := run.Pick(4000, 150000)
 	ctx, cancel := context.WithCancel(context.Background())
 	defer cancel()
@@ -1128,6 +1178,7 @@ func TestC36(t *testing.T) {
 
 	h := &harness{t: t, run: run, ctx: ctx, srv: srv, client: client, shadow: map[shadowKey][]*stored{}, bySum: map[[32]byte][]*stored{},
 		latest: map[string]map[int64]bool{}, latestMx: map[string]int64{}, cnt: map[string]int{}, hashSeen: map[string]string{}}
+	h.directedNonObject(vrand.New(run.Seed, "c36-directed"))
 	for n := 0; h.steps < target && run.Violations() < 8; n++ {
 		h.scenario(n, vrand.Sub(run.Seed, "c36-scenario", n))
 		h.cnt["scenarios"] = n + 1
@@ -1155,6 +1206,7 @@ func TestC36(t *testing.T) {
 	for _, f := range mutFields {
 		run.Require("one-field-different pair probed while the entry was present: "+f, h.cnt["one-field-pair:"+f] > 0)
 	}
+	run.Require("one-field-different pair probed while the entry was present: data (non-object payload on a JSON-RPC interface)", h.cnt["one-field-pair:data(non-object-jsonrpc-payload)"] > 0)
 	run.Require("ids of different JSON types hit the same entry", h.cnt["hit-across-id-json-types"] > 0)
 	run.Require("negative requested block resolved through the latest-block store and hit", h.cnt["negative-block-hit-through-latest-store"] > 0)
 	run.Require("neighbour entries (one field apart) each served their own reply", h.cnt["neighbour-pairs-both-hit-own-reply"] > 0)
